@@ -80,6 +80,29 @@ def removable_left(st_):
     return None
 
 
+def hom_removable_left(st_):
+    """Rational state: is any single interior knot copy removable in homogeneous coordinates (numerator and weight
+    function both in the smaller space, no vanishing weight)?  Such a knot is certainly 'exactly removable'."""
+    for z in oracle.breaks(st_.U)[1:-1]:
+        trial = list(st_.U)
+        trial.remove(z)
+        if oracle.represent_rational(st_, trial, st_.p) is not None:
+            return z
+    return None
+
+
+def hom_degree_reducible(st_):
+    if st_.p == 0:
+        return False
+    newU = []
+    for z in oracle.breaks(st_.U):
+        m = oracle.mult(st_.U, z) - 1
+        if m < 0:
+            return False
+        newU += [z] * m
+    return oracle.represent_rational(st_, newU, st_.p - 1) is not None
+
+
 def degree_reducible(st_):
     if st_.p == 0:
         return False
@@ -125,6 +148,21 @@ def run_cleans(curve, ref, cleans, out, klass, minimal=None, tol=None):
             if name in ("degree_clean", "clean") and degree_reducible(after):
                 out.fail("reducible-degree-left", klass,
                          f"after {name}() on U={ref.U} P={ref.P}: degree {after.p} of {after.U} is still exactly reducible")
+                return None
+        if after.w is not None:
+            # rational curves: "every knot and every degree that is exactly removable" at least covers what is
+            # removable in homogeneous coordinates
+            if name in ("knot_clean", "clean"):
+                z = hom_removable_left(after)
+                if z is not None:
+                    out.fail("removable-knot-left", klass,
+                             f"after {name}() on rational U={ref.U} P={ref.P} w={ref.w}: knot {z} of {after.U} is still "
+                             f"exactly removable (numerator and weight function both lie in the smaller space); w now {after.w}")
+                    return None
+            if name in ("degree_clean", "clean") and hom_degree_reducible(after):
+                out.fail("reducible-degree-left", klass,
+                         f"after {name}() on rational U={ref.U} P={ref.P} w={ref.w}: degree {after.p} of {after.U} is still "
+                         f"exactly reducible in homogeneous coordinates; w now {after.w}")
                 return None
         if name == "clean" and minimal is not None and after.w is None:
             Um, pm, Qm = minimal
@@ -173,6 +211,59 @@ def check_history(case, out):
         o = lib.state_of(other)
         if o.U != Um or o.p != pm or o.P != Qm:
             out.fail("not-unique", klass, f"another refinement of the same curve cleans to U={o.U} P={o.P}, not to U={Um} P={Qm}")
+
+
+@st.composite
+def rational_history_cases(draw):
+    c = draw(gen.curves(0, 2, 2, nums=("frac",), rational=True, dim=draw(st.sampled_from([0, 0, 2]))))
+    steps = []
+    for _ in range(draw(st.integers(1, 3))):
+        if draw(st.booleans()):
+            steps.append(("insert", draw(st.lists(st.tuples(st.integers(0, 7), st.sampled_from(
+                [None, F(1, 2), F(1, 3), F(3, 5)])), min_size=1, max_size=2))))
+        else:
+            steps.append(("elevate", 1))
+    cleans = draw(st.lists(st.sampled_from(["knot_clean", "degree_clean", "clean"]), min_size=1, max_size=3))
+    return {"curve": c, "steps": steps, "cleans": cleans, "tol": draw(TOLS)}
+
+
+def check_rational_history(case, out):
+    """A rational curve whose homogeneous representation is minimal, refined by the library and cleaned again."""
+    base = lib.case_state(case["curve"])
+    if hom_removable_left(base) is not None or hom_degree_reducible(base):
+        out.exclude("base-curve-not-minimal-in-homogeneous-coordinates")
+        return
+    curve = lib.build_curve(case["curve"])
+    has_ins = has_elev = False
+    for kind, arg in case["steps"]:
+        cur = lib.state_of(curve)
+        if kind == "insert":
+            nodes = resolve_nodes(arg, cur.U, cur.p)[:3]
+            if nodes:
+                curve.knot_insert(nodes)
+                has_ins = True
+        elif cur.p + arg <= 3:
+            curve.degree_increase(arg)
+            has_elev = True
+    refined = lib.state_of(curve)
+    if oracle.same_function(base, refined) is not None:
+        out.exclude("refinement-changed-function (C04/C06 territory)")
+        return
+    neg = all(x < 0 for x in base.w)
+    out.cls("ins" if has_ins else "", "elev" if has_elev else "", "cleans=" + "+".join(case["cleans"]),
+            "weights-negative" if neg else "weights-positive")
+    out.nontrivial = has_ins or has_elev
+    klass = "rational-history;" + ("ins+elev" if has_ins and has_elev else "ins" if has_ins else "elev" if has_elev else "none")
+    after = run_cleans(curve, base, case["cleans"], out, klass, None, case.get("tol"))
+    if after is None or out.failures or out.excluded:
+        return
+    if "clean" in case["cleans"] or ("knot_clean" in case["cleans"] and "degree_clean" in case["cleans"] and not has_elev):
+        # (the library may do better than homogeneous coordinates - e.g. a piecewise constant 5|5|12 with weights
+        # 8|1|1/2 loses the knot between the two fives - so only "not larger than the base" is asserted)
+        if "clean" in case["cleans"] and (after.p > base.p or len(after.U) - after.p > len(base.U) - base.p):
+            out.fail("not-minimal-form", klass,
+                     f"rational curve U={base.U} w={base.w} refined to {refined.U} cleans to {after.U} (degree {after.p}), "
+                     f"which is larger than the representation it started from")
 
 
 @st.composite
@@ -249,6 +340,9 @@ FACETS = [
           rule="arbitrary curves (small value alphabet so that reducible ones occur): preserved, idempotent, minimal"),
     Facet("float", lambda tier: arbitrary_cases(("float",)), check_float, quick=120, thorough=2000,
           rule="float data: function preserved within the tolerance bound"),
+    Facet("history-rational", lambda tier: rational_history_cases(), check_rational_history, quick=200, thorough=2500,
+          rule="rational curve minimal in homogeneous coordinates -> library refinement history -> clean calls -> nothing "
+               "removable in homogeneous coordinates is left, clean() restores the knot vector", case_timeout=120),
     Facet("rational-special", lambda tier: special_cases(), check_arbitrary, quick=160, thorough=2500,
           rule="rational curves whose weight function alone / numerator alone / constant weights are reducible",
           case_timeout=120),
